@@ -104,7 +104,7 @@ func C04(r *drv.Run) {
 	}
 	variants := amountVariants()
 	longV := longVariants()
-	r.Rule = fmt.Sprintf("bodies B from the core generator (alphabet {a,b}: occurrences overlap, lazy and bounded loops) plus fixed overlapping bodies and four bodies whose named loops capture, are back-referenced from inside and outside, or reuse the name of an earlier capture; per (B, text) the `all` result A and %d amount clauses (top/take n, skip s, last n for n,s in 0..5, skip s take t for s,t in 0..4 - straddling len(A); a few spelled with leading zeros) as find and as replace commands; plus 6 fixed bodies (three of them over multi-byte characters, consumed in one piece and byte by byte) on texts with 14..20 matches under %d clauses with amounts 7..13, each number also spelled with one and two leading zeros (still decimal), and with amounts 100..301 (around 128 and 256) against a text with 300 matches. Oracle: each clause's result must deep-equal (every field, incl. MatchNumber, variables, replacement) the stated slice of A; A itself is checked against the reference matcher. Non-trivial = len(A) >= 2 and the clause cuts A properly (0 < window < len(A)); distinct by (B, text, clause).", len(variants), len(longV))
+	r.Rule = fmt.Sprintf("bodies B from the core generator (alphabet {a,b}: occurrences overlap, lazy and bounded loops) plus fixed overlapping bodies, two bodies whose captures only some matches bind (replace commands list every capture of the body in their with-list) and four bodies whose named loops capture, are back-referenced from inside and outside, or reuse the name of an earlier capture; per (B, text) the `all` result A and %d amount clauses (top/take n, skip s, last n for n,s in 0..5, skip s take t for s,t in 0..4 - straddling len(A); a few spelled with leading zeros) as find and as replace commands; plus 6 fixed bodies (three of them over multi-byte characters, consumed in one piece and byte by byte) on texts with 14..20 matches under %d clauses with amounts 7..13, each number also spelled with one and two leading zeros (still decimal), and with amounts 100..301 (around 128 and 256) against a text with 300 matches. Oracle: each clause's result must deep-equal (every field, incl. MatchNumber, variables, replacement) the stated slice of A; A itself is checked against the reference matcher. Non-trivial = len(A) >= 2 and the clause cuts A properly (0 < window < len(A)); distinct by (B, text, clause).", len(variants), len(longV))
 	r.Assumptions = []string{"`last n` only for n >= 1 (the property's range)", "A itself judged by the C01 reference so the relation cannot hold vacuously on a wrong A"}
 	fixed := [][]gen.Node{
 		{gen.Lit{S: "aa"}},
@@ -113,6 +113,13 @@ func C04(r *drv.Run) {
 		{gen.Lit{S: "a"}, gen.Loop{Min: 0, Max: 1, Form: "maybe", Body: gen.Lit{S: "a"}}},
 		{gen.Capture{Name: "x", Body: gen.Class{Kind: "letter"}}, gen.Loop{Min: 0, Max: 1, Form: "maybe", Body: gen.BackRef{Name: "x"}}},
 	}
+	// a capture that only SOME matches bind, used in the with-list of a replace command: the replacement of a match is
+	// made from that match alone, whichever matches were replaced before it
+	optCapA := len(fixed)
+	fixed = append(fixed,
+		[]gen.Node{gen.Lit{S: "a"}, gen.Loop{Min: 0, Max: 1, Form: "maybe", Body: gen.Seq{Items: []gen.Node{gen.Capture{Name: "x", Body: gen.Lit{S: "b"}}}}}},
+		[]gen.Node{gen.Or{Alts: []gen.Node{gen.Seq{Items: []gen.Node{gen.Capture{Name: "x", Body: gen.Lit{S: "ab"}}}}, gen.Seq{Items: []gen.Node{gen.Capture{Name: "y", Body: gen.Lit{S: "a"}}}}, gen.Lit{S: "b"}}}},
+	)
 	// named loops whose captures and names interact with back-references (the name of a loop is also the scope of
 	// what it captures; a loop may reuse the name of an earlier capture): whatever these mean, they mean the same
 	// under every clause. Their `all` result is not judged against the reference, only the windows against it.
@@ -157,9 +164,16 @@ func C04(r *drv.Run) {
 		if long {
 			replace = (i-nbody)%2 == 1
 		}
+		if !long && (i == optCapA || i == optCapA+1) {
+			replace = true
+		}
 		if replace {
 			p.Commands[0].Replace = true
 			p.Commands[0].With = []gen.WithItem{{Kind: "str", S: "<"}, {Kind: "var", S: "value"}, {Kind: "var", S: "matchNumber"}, {Kind: "str", S: ">"}}
+			// every capture of the body, bound by this match or not
+			for _, cn := range gen.CaptureNames(p.Commands[0].Body) {
+				p.Commands[0].With = append(p.Commands[0].With, gen.WithItem{Kind: "str", S: "|"}, gen.WithItem{Kind: "var", S: cn})
+			}
 			if i%2 == 1 {
 				// a transform that reads the match's own number, offsets, line and column: the replacement of a match is
 				// the same under every clause that selects it
@@ -172,6 +186,9 @@ func C04(r *drv.Run) {
 		texts = append(texts, []byte("aaaaaa"), []byte("abababab"))
 		if long {
 			texts = longTexts
+		}
+		if !long && (i == optCapA || i == optCapA+1) {
+			texts = append(texts, []byte("ab a ab a a ab"), []byte("a ab b a b ab a"), []byte("a a ab a a"))
 		}
 		namedFixed := !long && i >= nFixedPlain && i < len(fixed)
 		if namedFixed {
